@@ -1,0 +1,192 @@
+//go:build verif
+
+package memberlist
+
+// Read-only accessors and thin constructors for the external runtime
+// monitors under /verif. Compiled only with `-tags verif`; nothing in the
+// regular build references this file.
+
+import (
+	"sync/atomic"
+	"time"
+
+	"github.com/google/btree"
+)
+
+// VerifRecord is a copy of one membership record.
+type VerifRecord struct {
+	Name        string
+	Addr        []byte
+	Port        uint16
+	Meta        []byte
+	Vsn         [6]uint8
+	Incarnation uint32
+	State       NodeStateType
+	StateChange time.Time
+	HasTimer    bool
+	InMap       bool
+}
+
+// VerifView is a consistent copy of the membership table.
+type VerifView struct {
+	Records     []VerifRecord // in m.nodes order
+	MapOnly     []string      // names in nodeMap that are not in m.nodes
+	TimerOnly   []string      // names with a suspicion timer but no record
+	NumNodes    int
+	Incarnation uint32
+	Left        bool
+	Shutdown    bool
+}
+
+func (m *Memberlist) verifViewLocked() VerifView {
+	v := VerifView{
+		NumNodes:    int(m.numNodes.Load()),
+		Incarnation: m.incarnation.Load(),
+		Left:        m.hasLeft(),
+		Shutdown:    m.hasShutdown(),
+	}
+	seen := make(map[string]struct{}, len(m.nodes))
+	for _, n := range m.nodes {
+		if n == nil {
+			continue
+		}
+		r := VerifRecord{
+			Name:        n.Name,
+			Addr:        append([]byte(nil), n.Addr...),
+			Port:        n.Port,
+			Meta:        append([]byte(nil), n.Meta...),
+			Vsn:         [6]uint8{n.PMin, n.PMax, n.PCur, n.DMin, n.DMax, n.DCur},
+			Incarnation: n.Incarnation,
+			State:       n.State,
+			StateChange: n.StateChange,
+		}
+		_, r.HasTimer = m.nodeTimers[n.Name]
+		mp, ok := m.nodeMap[n.Name]
+		r.InMap = ok && mp == n
+		seen[n.Name] = struct{}{}
+		v.Records = append(v.Records, r)
+	}
+	for name := range m.nodeMap {
+		if _, ok := seen[name]; !ok {
+			v.MapOnly = append(v.MapOnly, name)
+		}
+	}
+	for name := range m.nodeTimers {
+		if _, ok := seen[name]; !ok {
+			v.TimerOnly = append(v.TimerOnly, name)
+		}
+	}
+	return v
+}
+
+// VerifDump copies the membership table under the node lock.
+func (m *Memberlist) VerifDump() VerifView {
+	m.nodeLock.RLock()
+	defer m.nodeLock.RUnlock()
+	return m.verifViewLocked()
+}
+
+// VerifDumpLocked copies the membership table WITHOUT taking the node lock.
+// Only for use inside delegate callbacks that memberlist invokes while it
+// already holds the node lock (EventDelegate, ConflictDelegate, AliveDelegate).
+func (m *Memberlist) VerifDumpLocked() VerifView {
+	return m.verifViewLocked()
+}
+
+// VerifSuspicionInfo describes a pending suspicion timer.
+type VerifSuspicionInfo struct {
+	K, N     int
+	Min, Max time.Duration
+	Start    time.Time
+}
+
+// VerifSuspicionOf returns the parameters of the suspicion timer of a node.
+func (m *Memberlist) VerifSuspicionOf(name string) (VerifSuspicionInfo, bool) {
+	m.nodeLock.RLock()
+	defer m.nodeLock.RUnlock()
+	s, ok := m.nodeTimers[name]
+	if !ok {
+		return VerifSuspicionInfo{}, false
+	}
+	return VerifSuspicionInfo{K: int(s.k), N: int(s.n.Load()), Min: s.min, Max: s.max, Start: s.start}, true
+}
+
+// VerifQueuedMsg is one entry of the broadcast queue.
+type VerifQueuedMsg struct {
+	Name      string
+	Msg       []byte
+	Transmits int
+}
+
+// VerifQueued lists the membership broadcast queue.
+func (m *Memberlist) VerifQueued() []VerifQueuedMsg {
+	q := m.broadcasts
+	q.mu.Lock()
+	defer q.mu.Unlock()
+	var out []VerifQueuedMsg
+	if q.tq == nil {
+		return out
+	}
+	q.tq.Ascend(func(item btree.Item) bool {
+		cur := item.(*limitedBroadcast)
+		out = append(out, VerifQueuedMsg{
+			Name:      cur.name,
+			Msg:       append([]byte(nil), cur.b.Message()...),
+			Transmits: cur.transmits,
+		})
+		return true
+	})
+	return out
+}
+
+// VerifAckHandlers is the number of pending-probe records.
+func (m *Memberlist) VerifAckHandlers() int {
+	m.ackLock.Lock()
+	defer m.ackLock.Unlock()
+	return len(m.ackHandlers)
+}
+
+// VerifHandoffDepths returns the lengths of the two packet handoff queues.
+func (m *Memberlist) VerifHandoffDepths() (high, low int) {
+	m.msgQueueLock.Lock()
+	defer m.msgQueueLock.Unlock()
+	return m.highPriorityMsgQueue.Len(), m.lowPriorityMsgQueue.Len()
+}
+
+// VerifPushPullInFlight is the inbound push/pull counter.
+func (m *Memberlist) VerifPushPullInFlight() int {
+	return int(m.pushPullReq.Load())
+}
+
+// VerifSequenceNum is the last probe sequence number handed out.
+func (m *Memberlist) VerifSequenceNum() uint32 {
+	return atomic.LoadUint32(&m.sequenceNum)
+}
+
+// VerifSuspicion wraps the unexported suspicion timer.
+type VerifSuspicion struct{ s *suspicion }
+
+// VerifNewSuspicion starts a suspicion timer exactly as suspectNode does.
+func VerifNewSuspicion(from string, k int, min, max time.Duration, fn func(int)) *VerifSuspicion {
+	return &VerifSuspicion{s: newSuspicion(from, k, min, max, fn)}
+}
+
+// Confirm registers a confirmation.
+func (v *VerifSuspicion) Confirm(from string) bool { return v.s.Confirm(from) }
+
+var verifPointFn atomic.Pointer[func(m *Memberlist, name string)]
+
+// VerifSetPoint installs (or, with nil, removes) the failpoint callback.
+func VerifSetPoint(fn func(m *Memberlist, name string)) {
+	if fn == nil {
+		verifPointFn.Store(nil)
+		return
+	}
+	verifPointFn.Store(&fn)
+}
+
+func verifPoint(m *Memberlist, name string) {
+	if fn := verifPointFn.Load(); fn != nil {
+		(*fn)(m, name)
+	}
+}
